@@ -57,6 +57,8 @@ _blackbox_vlogger(int32_t target,
 {
 	size_t max_size;
 	size_t actual_size;
+	size_t room;
+	size_t line_len;
 	uint32_t fn_size;
 	char *chunk;
 	char *msg_len_pt;
@@ -70,7 +72,18 @@ _blackbox_vlogger(int32_t target,
 	fn_size = strlen(cs->function) + 1;
 
 	actual_size = 4 * sizeof(uint32_t) + sizeof(uint8_t) + fn_size + sizeof(struct timespec);
-	max_size = actual_size + t->max_line_length;
+	/*
+	 * Room for the longest message the target takes - but not more than
+	 * the ring can give to one chunk: asking for that would be refused
+	 * (and used to cost the whole blackbox) although the record itself
+	 * is small.
+	 */
+	room = qb_rb_chunk_max(t->instance);
+	if (actual_size + 4 > room) {
+		return;
+	}
+	line_len = QB_MIN(t->max_line_length, room - actual_size);
+	max_size = actual_size + line_len;
 
 	chunk = qb_rb_chunk_alloc(t->instance, max_size);
 
@@ -110,12 +123,12 @@ _blackbox_vlogger(int32_t target,
 	chunk += sizeof(uint32_t);
 
 	/* log message */
-	msg_len = qb_vsnprintf_serialize(chunk, t->max_line_length, cs->format, ap);
-	if (msg_len >= t->max_line_length) {
+	msg_len = qb_vsnprintf_serialize(chunk, line_len, cs->format, ap);
+	if (msg_len >= line_len) {
 	    chunk = msg_len_pt + sizeof(uint32_t); /* Reset */
 
 	    /* Bound this by what was reserved so as not to overflow the blackbox */
-	    msg_len = qb_vsnprintf_serialize(chunk, t->max_line_length,
+	    msg_len = qb_vsnprintf_serialize(chunk, line_len,
 		"Log message too long to be stored in the blackbox.  "\
 		"Maximum is QB_LOG_MAX_LEN" , ap);
 	}
